@@ -1,5 +1,5 @@
 (* Check/Check_C04.v — shaft lines (C04) and hybrid composition (C05) against the implementation *)
-From Coq Require Import QArith Qabs List Bool.
+From Coq Require Import QArith Qabs Qround List Bool.
 From Feems Require Import Base.Num Base.Pchip Model.Component Model.Shaft Model.Hybrid Check.Check_C06.
 Import ListNotations.
 Open Scope Q_scope.
@@ -18,13 +18,22 @@ Definition check_line (s : line) (scale : Q) (obs_engines : list fl) (obs_pti : 
                    (* an output that is zero only up to rounding (loads summed in binary64 against the exact sum) *)
                    || Qle_bool (Qabs (engine_out s e)) ((1 # 1000000000) * scale)) (l_engines s) obs_status.
 
+(* a rational rounded down to a multiple of 2^-40 (error < 1e-12): keeps the numbers the interpolant is evaluated at
+   small when a balancing power is a quotient of sums; far inside the 1e-9 comparison tolerance *)
+Definition dy (x : Q) : Q := inject_Z (Qfloor (x * inject_Z (2 ^ 40))) / inject_Z (2 ^ 40).
+
+(* the machine's two conversions as the comparison uses them: the prepared component's answers rounded to 2^-40 kW, so that
+   chains of up to four conversions (electric -> shaft -> electric -> shaft -> electric) stay small rationals *)
+Definition conv_ts (p : prepared) (e : Q) : Q := dy (answer p (1%nat, false, e)).
+Definition conv_te (p : prepared) (sf : Q) : Q := dy (answer p (0%nat, false, sf)).
+
 (* hybrid, one step: the PTI/PTO machine is a prepared component (serial system curve); the engines
    of its shaft line; the sources of the (single) bus share the load equally *)
 Definition check_hybrid_step (p : prepared) (i : hin) (engines : list eng) (src_rated : list Q) (cons_total : Q)
     (scale : Q) (obs_elec obs_shaft : fl) (obs_engines : list fl) (obs_sources : list fl) : bool :=
-  let ts := fun e => answer p (1%nat, false, e) in          (* shaft from electric: output from input *)
-  let te := fun s => answer p (0%nat, false, s) in          (* electric from shaft: input from output *)
-  let ln := {| l_loads := [h_load i]; l_pti := Some (s1 ts i, h_full i); l_engines := engines |} in
+  let ts := conv_ts p in          (* shaft from electric: output from input *)
+  let te := conv_te p in          (* electric from shaft: input from output *)
+  let ln := {| l_loads := [h_load i]; l_pti := Some (shaft_balanced_with ts te i, h_full i); l_engines := engines |} in
   let net := cons_total + elec_balanced_with ts te i in
   let cap := qsum src_rated in
   close_num scale obs_elec (Fin (elec_final ts te i)) &&
@@ -35,14 +44,14 @@ Definition check_hybrid_step (p : prepared) (i : hin) (engines : list eng) (src_
 (* several PTI/PTO machines: each machine separately, and the sources against the sum *)
 Definition machine_ok (p : prepared) (i : hin) (engines : list eng) (scale : Q)
     (obs_elec obs_shaft : fl) (obs_engines : list fl) : bool :=
-  let ts := fun e => answer p (1%nat, false, e) in
-  let te := fun s => answer p (0%nat, false, s) in
-  let ln := {| l_loads := [h_load i]; l_pti := Some (s1 ts i, h_full i); l_engines := engines |} in
+  let ts := conv_ts p in
+  let te := conv_te p in
+  let ln := {| l_loads := [h_load i]; l_pti := Some (shaft_balanced_with ts te i, h_full i); l_engines := engines |} in
   close_num scale obs_elec (Fin (elec_final ts te i)) &&
   close_num scale obs_shaft (Fin (shaft_final ts te i)) &&
   all2 (fun e o => close_num scale o (Fin (engine_out ln e))) engines obs_engines.
 Definition ebal (p : prepared) (i : hin) : Q :=
-  elec_balanced_with (fun e => answer p (1%nat, false, e)) (fun s => answer p (0%nat, false, s)) i.
+  elec_balanced_with (conv_ts p) (conv_te p) i.
 Definition sources_ok (src_rated : list Q) (net scale : Q) (obs_sources : list fl) : bool :=
   let cap := qsum src_rated in
   all2 (fun r o => close_num scale o (Fin (if qzero net then 0 else r * (net / cap)))) src_rated obs_sources.
